@@ -214,7 +214,7 @@ pub fn run(cfg: &Cfg, rep: &mut Report) {
     }
   }
   // (iii) random chains of depth 2..=5 (quick: ..=4)
-  let total = cfg.n(40_000, 30_000_000);
+  let total = cfg.n(400_000, 30_000_000);
   let maxd = cfg.n(4, 5);
   let mut rng = Rng::new(cfg.seed ^ 0xC03);
   for i in 0..total {
